@@ -421,6 +421,18 @@ def _bool_patterns(arms):
     return True
 
 
+def _catch_all(pat):
+    """`_` or a plain binding (`other`): matches whatever reaches it"""
+    k = pat.get("k")
+    if k == "Wild":
+        return True
+    if k == "Binding" and not pat.get("sub"):
+        return True
+    if k in ("Ref", "Deref", "Box"):
+        return _catch_all(pat["pat"])
+    return False
+
+
 def option_match(labels, arms):
     """Index of the Some/Ok arm of a two-armed match over an Option/Result without guards, else None."""
     if len(labels) != 2 or any(a.get("guard") for a in arms):
@@ -1281,10 +1293,13 @@ class Extractor:
                 bind_pattern(a["pat"], scrut, env_a)
                 if some is not None:
                     # `match opt { Some(x) => .., None => .. }` reads as `if let Some(x) = opt { .. } else { .. }`
-                    alt = ("alt", ("islet", labels[some], scrut), i == some)
+                    alts = (("alt", ("islet", labels[some], scrut), i == some),)
+                elif _catch_all(a["pat"]) and not a.get("guard"):
+                    # `_ => ..` / `other => ..`: taken when none of the earlier patterns matched
+                    alts = tuple(("alt", ("islet", labels[j], scrut), False) for j in range(i) if not e["arms"][j].get("guard"))
                 else:
-                    alt = ("alt", ("islet", labels[i], scrut), True)
-                self._visit(fn, a["body"], env_a, ctx + (alt,), out, how)
+                    alts = (("alt", ("islet", labels[i], scrut), True),)
+                self._visit(fn, a["body"], env_a, ctx + alts, out, how)
             return
         if k == "For":
             it = self.NF.nf(e["iter"], env)
